@@ -225,7 +225,16 @@ def run(ctx):
     # successor (tens of thousands per state), so a few walks print plenty; a seeded sample of them is taken.
     mut2 = ctx.tlc("Mutations", simulate=(16 if quick else 160), depth=4, workers=4,
                    defines={"Stride": "1", "Offset": "0", "MaxSteps": "3"}, tag="mutations-composed-simulate")
+    # valid programs of the grammar (spec/GrammarMC.tla, statement and declaration families: every statement /
+    # declaration kind with its optional parts and every list production with 0, 1, 2 elements): totality on what
+    # the grammar generates, beyond the hand-written base programs of Mutations.tla
+    gram = ctx.tlc("GrammarMC", cfg="GrammarEmit.cfg", defines={"Full": "FALSE", "Families": '{"stmts", "decls"}'},
+                   tag="grammar-programs", timeout=1500)
+    if gram.behaviours == 0:
+        raise MachineryFault("GrammarMC printed no program (dead driver)")
     pin = os.path.join(ctx.work, "parse_in.jsonl")
+    base_ids = {}
+    gram_ids = set()
     n_in = 0
     with open(pin, "w") as out:
         for line in open(lexbeh):
@@ -237,6 +246,8 @@ def run(ctx):
             b = json.loads(line)
             nm += 1
             n_in += 1
+            if b["mut"] == "base":
+                base_ids["mu%d" % nm] = b["prog"]
             out.write(json.dumps({"id": "mu%d" % nm, "toks": b["toks"], "lex": True,
                                   "class": {"source": "mutation", "mut": b["mut"], "prog": b["prog"], "at": b["at"], "with": b["with"]}}) + "\n")
         seen_m = set()
@@ -259,6 +270,26 @@ def run(ctx):
                                   "class": {"source": "mutation", "mut": "composed", "prog": b["prog"], "at": b["at"], "with": b["with"]}}) + "\n")
         ctx.notes["mutants"] = nm
         ctx.notes["mutants_composed"] = n2
+        ng = 0
+        gseen = set()
+        for line in open(gram.beh_path):
+            b = json.loads(line)
+            k = "\x01".join(b["toks"])
+            if k in gseen:
+                continue
+            gseen.add(k)
+            if quick and b["fam"] in ("seq", "declorder") and (len(gseen) + ctx.seed) % 4 != 0:
+                continue        # the long order families: a seeded quarter in the quick tier
+            ng += 1
+            n_in += 1
+            gram_ids.add("gr%d" % ng)
+            # every generated program, and cut after its first third / two thirds (truncated valid programs)
+            out.write(json.dumps({"id": "gr%d" % ng, "toks": b["toks"], "class": {"source": "grammar", "fam": b["fam"]}}) + "\n")
+            for cut in (len(b["toks"]) // 3, 2 * len(b["toks"]) // 3):
+                n_in += 1
+                out.write(json.dumps({"id": "gr%d_cut%d" % (ng, cut), "toks": b["toks"][:cut],
+                                      "class": {"source": "grammar-truncated", "fam": b["fam"]}}) + "\n")
+        ctx.notes["grammar_programs"] = ng
         cor = ctx.harness(BIN, ["corpus", "-max", "1200" if quick else "6000", os.path.join(vlib.REPO, "examples")],
                           out_name="corpus_in.jsonl")
         nc = 0
@@ -297,6 +328,7 @@ def run(ctx):
             reproduced += 1
         ctx.add_result(r)
     outcomes = {}
+    rejected_valid = []
     max_eof = 0
     for rp in parse_res:
         for r in ctx.read_results(rp):
@@ -311,6 +343,11 @@ def run(ctx):
                 max_eof = max(max_eof, v.get("eofcalls", 0))
             o = r["observed"]["outcome"]
             outcomes[o] = outcomes.get(o, 0) + 1
+            src_id, mode = r["id"].rsplit("/", 1)
+            if mode == "vcl" and o == "parse_error" and (src_id in base_ids or src_id in gram_ids):
+                # a valid program is rejected: no statement of C01 is broken (that is C02's), but the inputs derived
+                # from it no longer exercise what they were written for
+                rejected_valid.append(r["input"]["text"][:120])
             if r.get("mismatch"):
                 reproduced += 1
             ctx.add_result(r)
@@ -322,6 +359,10 @@ def run(ctx):
             classify_lex(r, v)
             ctx.add_result(r)
     ctx.notes["parse_outcomes"] = outcomes
+    ctx.notes["valid_programs_rejected"] = len(rejected_valid)
+    if rejected_valid:
+        ctx.drift.append({"id": "valid-programs", "drift": {"obs": "valid-program-rejected-by-ParseVCL", "count": len(rejected_valid),
+                                                              "examples": rejected_valid[:3]}})
     ctx.notes["max_eof_calls_in_one_parse"] = max_eof
     ctx.notes["model_leads"] = lead1 + lead2
     if (lead1 or lead2) and reproduced == 0:
